@@ -554,8 +554,7 @@ Fixpoint keys_increasing (l : list (Z * Z)) : bool :=
 
 Definition side_ok (G : list f64) (s : Z) (z : f64) (neg : bool) (pops : list (Z * Z)) : bool :=
   keys_increasing pops &&
-  forallb (fun p => Z.leb 0 (snd p) && Z.leb (Z.abs (fst p)) (2 ^ 21)
-                    && Z.eqb (snd p) (want_bucket G s z neg (fst p))) pops.
+  forallb (fun p => Z.leb 0 (snd p) && Z.eqb (snd p) (want_bucket G s z neg (fst p))) pops.
 
 (* what one collection exposes, with the populations decoded *)
 Record expo := mkExpo {
